@@ -57,46 +57,37 @@ def rule_csv(ctx):
     _no_reorder(ctx, f, col)
     hdr = [c for c in calls(f.node) if call_attr(c) == "writerow" and c.args and dotted(c.args[0]) == col]
     ctx.check(len(hdr) == 1, "C20.same-keys", f, "header", "header row is '%s'" % col, "header row is not written from '%s'" % col)
-    # row loop
-    row_loops = [st for st in statements(f.node) if isinstance(st, ast.For) and dotted(st.iter) == col]
-    if not row_loops:
-        # transposed form: writer.writerows(zip(*[experiment[c] for c in csv_columns]))
-        env = env_for(f.node)
-        wrs = [c for c in calls(f.node) if call_attr(c) == "writerows" and len(c.args) == 1]
-        exp_loops = [st for st in f.node.body if isinstance(st, ast.For)]
-        evars = names_in(exp_loops[0].target) if len(exp_loops) == 1 else []
-        nf = str(sym(wrs[0].args[0], env)) if len(wrs) == 1 else ""
-        ok = any(nf == "zip(*[%s[_b0] for _b0 in %s])" % (ev, col) for ev in evars)
-        ctx.check(ok, "C20.same-keys", f, "rows %s" % (nf or "?"), "rows are the transposition of the experiment's columns fetched in header order",
-                  "the rows of the CSV file are not built by fetching the experiment's columns with the keys of '%s', in that order (rows: `%s`): "
-                  "a cell can land under another factor's header" % (col, nf or "no single writerows / no loop over '%s'" % col), wrs[0] if wrs else f.node)
-        return
-    ctx.require(len(row_loops) == 1 and isinstance(row_loops[0].target, ast.Name),
-                "%s: expected one loop over '%s' building a row" % (f.fq, col))
-    cv = row_loops[0].target.id
-    env = env_for(f.node)
-    app = [c for c in ast.walk(row_loops[0]) if isinstance(c, ast.Call) and call_attr(c) == "append"]
-    ctx.require(len(app) == 1 and isinstance(app[0].args[0], ast.Subscript), "%s: unexpected row construction" % f.fq)
-    cell = app[0].args[0]            # dict[column][row_idx]
-    inner = cell.value
-    ok = isinstance(inner, ast.Subscript) and isinstance(inner.slice, ast.Name) and inner.slice.id == cv
-    ctx.check(ok, "C20.same-keys", f, "cell %s" % ast.unparse(cell), "each cell is fetched with the loop's own column key",
-              "cell '%s' is not indexed by the column being written ('%s')" % (ast.unparse(cell), cv), cell)
-    # row index loop: range(num_rows) with num_rows = len(<experiment>[csv_columns[0]])
-    idx_loops = [st for st in statements(f.node) if isinstance(st, ast.For) and isinstance(st.target, ast.Name)
-                 and isinstance(cell.slice, ast.Name) and st.target.id == cell.slice.id]
-    ctx.require(len(idx_loops) == 1, "%s: no loop binding the row index '%s'" % (f.fq, ast.unparse(cell.slice)))
-    rng = str(sym(idx_loops[0].iter, env))
-    exp_var = str(sym(inner.value, env))
-    ctx.check(rng == "range(len(%s[%s[0]]))" % (exp_var, col), "C20.rows", f, "rows %s" % rng,
-              "rows 0..len-1 of the experiment in order", "row range is '%s', expected all rows of the experiment in order" % rng,
-              idx_loops[0])
+    # rows, by normal form: either one writerow per row index r in range(len(<experiment>[csv_columns[0]])) whose argument is
+    # [<experiment>[c][r] for c in csv_columns] (an explicit loop with append has the same normal form), or the transposed
+    # writerows(zip(*[<experiment>[c] for c in csv_columns])).  The experiment is the variable of the loop over `experiments`.
+    from ..facts import Facts
+    F = Facts(f)
     exp_loops = [st for st in f.node.body if isinstance(st, ast.For)]
-    ctx.check(len(exp_loops) == 1 and "experiments" in names_in(exp_loops[0].iter) and
-              exp_var in [n for n in names_in(exp_loops[0].target)], "C20.same-keys", f, "experiment var",
-              "cells come from the experiment being written", "cells come from '%s', not from the loop's experiment" % exp_var)
-    wr = [c for c in calls(f.node) if call_attr(c) == "writerow"]
-    ctx.check(len(wr) == 2, "C20.rows", f, "writerow x%d" % len(wr), "header + one writerow per row", "unexpected number of writerow sites")
+    ctx.check(len(exp_loops) == 1 and "experiments" in names_in(exp_loops[0].iter), "C20.same-keys", f, "experiment loop",
+              "one file per experiment", "the loop over the experiments changed")
+    evars = names_in(exp_loops[0].target) if len(exp_loops) == 1 else []
+    rows = [st for st in F.stmts if isinstance(st, ast.Expr) and isinstance(st.value, ast.Call) and call_attr(st.value) in ("writerow", "writerows") and
+            st.value.args and dotted(st.value.args[0]) != col]
+    found = []
+    ok = False
+    for st in rows:
+        nf = str(F.at(st, st.value.args[0]))
+        found.append("%s(%s)" % (call_attr(st.value), nf))
+        if call_attr(st.value) == "writerows":
+            ok = ok or any(nf == "zip(*[%s[_b0] for _b0 in %s])" % (ev, col) for ev in evars)
+            continue
+        loops_ = [l for l in F.stmts if isinstance(l, ast.For) and l is not exp_loops[0] and any(x is st for x in ast.walk(l)) and isinstance(l.target, ast.Name)]
+        for l in loops_:
+            r_ = l.target.id
+            rng = str(F.at(l, l.iter))
+            for ev in evars:
+                if nf == "[%s[_b0][%s] for _b0 in %s]" % (ev, r_, col) and rng in ("range(len(%s[%s[0]]))" % (ev, col), "range(0, len(%s[%s[0]]))" % (ev, col)):
+                    ok = True
+    ctx.check(ok and len(rows) == 1, "C20.same-keys", f, "rows %s" % found, "every row holds the experiment's values fetched with the header's keys, in header order, for rows 0..len-1",
+              "the rows of the CSV file are not built by fetching the experiment's columns with the keys of '%s', in that order, for every row (rows: %s): "
+              "a cell can land under another factor's header, or rows are lost" % (col, found or "none"), rows[0] if rows else f.node)
+    wr = [c for c in calls(f.node) if call_attr(c) in ("writerow", "writerows")]
+    ctx.check(len(wr) == 2, "C20.rows", f, "writer calls x%d" % len(wr), "header + the rows", "unexpected number of writerow sites")
 
 
 def check(ctx):
